@@ -205,3 +205,92 @@ Print Assumptions C03_published_OpType_ignores_parent_index.
 Print Assumptions C03_annotations_do_not_matter.
 Print Assumptions C03_fast_validator_is_the_validator.
 Print Assumptions C03_schema_example.
+
+(* ==================================================================================================================
+   False alarms corrected (harmless changes; design.d/C03.md).  The statements above are about the document
+   Hugr._to_serial writes TODAY: nodes by increasing index, edges in link-insertion order, "encoder": null in package
+   modules.  C03 promises none of these choices.  The statements below hold for every choice a writer can make:
+   * any listing order L of the live nodes that is admissible (exactly the live nodes, each once) and puts the root
+     first and every parent before its children (model/SerialHugrGen.v to_serial_in; spec/SerialHugrGenS.v) -- no
+     index_ordered_b premise: hierarchy order makes documents index-sane also after index reuse;
+   * any presentation of the document (order of the edges array, writing of the metadata table: SameDoc);
+   * any `encoder` member of the modules of a package (model/DocJsonEnc.v pkg_json_e).
+   ================================================================================================================== *)
+From HV Require Import model.SerialHugrGen spec.SerialHugrGenS proofs.SerialHugrGenP model.DocJsonEnc proofs.DocJsonEncP.
+
+Section C03Order.
+  Variables op sop md : Type.
+  Variable enc : op -> sop.
+  Variable ndp : op -> dir -> option nat.
+  Variable md_nil : md.
+  Variable md_is_nil : md -> bool.
+  Variables vports sports : op -> dir -> nat.
+  Variable has_order : op -> bool.
+  Hypothesis ndp_spec : forall o d, ndp o d = if has_order o then Some (vports o d + sports o d) else None.
+
+  Theorem C03_any_listing_order_serialization_total : forall (h : hugr op md) (L : list nat),
+    OrderAdmissible h L -> order_ok_b h L = true -> ports_exist_b vports sports has_order h = true ->
+    exists s : serial sop md, to_serial_in enc ndp md_is_nil L h = Some s.
+  Proof. exact (to_serial_in_total op sop md enc ndp md_nil md_is_nil vports sports has_order ndp_spec). Qed.
+
+  (* the root is node 0 (and names itself as parent), every other node's parent is listed earlier, both endpoints of
+     every edge are listed, and every edge is the link with its nodes at their listing positions and its ports
+     addressed by the operation's own port counts *)
+  Theorem C03_any_listing_order_index_sane_and_port_addressing : forall (h : hugr op md) (L : list nat) (s : serial sop md),
+    OrderAdmissible h L -> order_ok_b h L = true -> ports_exist_b vports sports has_order h = true ->
+    to_serial_in enc ndp md_is_nil L h = Some s ->
+    pos_in L (h_root h) = 0 /\ IndexSane s /\ s_edges s = map (expected_edge_pos vports sports h L) (h_links h).
+  Proof.
+    intros h L s Ha Ho. exact (serial_in_sane op sop md enc ndp md_nil md_is_nil vports sports has_order ndp_spec h L Ha Ho s).
+  Qed.
+
+  (* the document of model/SerialHugr.v is the instance "increasing index", always admissible *)
+  Theorem C03_index_order_is_an_instance : forall h : hugr op md,
+    to_serial_in enc ndp md_is_nil (live h) h = to_serial enc ndp md_is_nil h /\ OrderAdmissible h (live h).
+  Proof. intros h. split; [apply to_serial_in_live|exact (live_admissible op md md_nil md_is_nil h)]. Qed.
+
+  (* what the monitor's test on the order the implementation chose establishes *)
+  Theorem C03_order_test_sound : forall (h : hugr op md) (L : list nat),
+    order_admissible_b h L = true -> OrderAdmissible h L.
+  Proof. exact (order_admissible_b_sound op md md_nil md_is_nil). Qed.
+
+  (* index sanity does not depend on the presentation of the document *)
+  Theorem C03_index_sanity_any_presentation : forall a b : serial sop md,
+    SameDoc md_nil a b -> IndexSane b -> IndexSane a.
+  Proof. exact (index_sane_same sop md md_nil). Qed.
+End C03Order.
+
+(* a package whose modules carry any `encoder` members validates against the published Package definition *)
+Theorem C03_package_schema_valid_any_encoder :
+  forall (sop md : Type) (op_fields : sop -> obj) (md_fields : md -> obj) (f : nat)
+         (mods : list (option string * serial sop md)) (exts : list json),
+  4 <= f -> ops_valid0 published_hugr_strict sop op_fields f ->
+  (forall e, In e exts -> accepts (3 + f) published_hugr_strict "Extension" e = true) ->
+  accepts (6 + f) published_hugr_strict "Package" (pkg_json_e op_fields md_fields mods exts) = true.
+Proof. exact published_pkg_e_accepted. Qed.
+Theorem C03_emitted_package_schema_valid_any_encoder :
+  forall (sop md : Type) (op_fields : sop -> obj) (md_fields : md -> obj) (f : nat)
+         (mods : list (option string * serial sop md)) (exts : list json) (emitted : json),
+  4 <= f -> ops_valid0 published_hugr_strict sop op_fields f ->
+  (forall e, In e exts -> accepts (3 + f) published_hugr_strict "Extension" e = true) ->
+  data_equiv (pkg_json_e op_fields md_fields mods exts) emitted = true ->
+  accepts (6 + f) published_hugr_strict "Package" emitted = true.
+Proof. exact published_emitted_pkg_e_accepted. Qed.
+
+(* non-vacuity: the index-reuse witness (C03_index_reuse_refuted: listed by index it is not index-sane) listed in
+   hierarchy order [0; 2; 1] satisfies the premises, and its document is index-sane and loads *)
+Example C03_listing_order_example :
+  order_admissible_b Witness.reuse_child [0; 2; 1] = true /\ order_ok_b Witness.reuse_child [0; 2; 1] = true /\
+  ports_exist_b Witness.vports Witness.sports Witness.has_order Witness.reuse_child = true /\
+  exists s h', to_serial_in Witness.enc Witness.ndp Witness.md_is_nil [0; 2; 1] Witness.reuse_child = Some s /\
+               index_sane_b s = true /\ map (@s_parent nat) (s_nodes s) = [0; 0; 1] /\ Witness.from_s s = Some h'.
+Proof. exact GenWitness.reuse_child_hierarchy_order. Qed.
+
+Print Assumptions C03_any_listing_order_serialization_total.
+Print Assumptions C03_any_listing_order_index_sane_and_port_addressing.
+Print Assumptions C03_index_order_is_an_instance.
+Print Assumptions C03_order_test_sound.
+Print Assumptions C03_index_sanity_any_presentation.
+Print Assumptions C03_package_schema_valid_any_encoder.
+Print Assumptions C03_emitted_package_schema_valid_any_encoder.
+Print Assumptions C03_listing_order_example.
